@@ -1,3 +1,604 @@
 package main
 
-func addHTTP(m map[string]Intrinsic) {}
+// Models for net/http, net/url, context, crypto stubs, database stubs, singleflight.
+
+import (
+	"fmt"
+	"go/types"
+	"net/http"
+	"net/url"
+	"strings"
+
+	"golang.org/x/tools/go/ssa"
+)
+
+// ---- struct field helpers ----
+
+func structOf(t types.Type) *types.Struct {
+	if p, ok := t.Underlying().(*types.Pointer); ok {
+		t = p.Elem()
+	}
+	st, _ := t.Underlying().(*types.Struct)
+	return st
+}
+
+func fieldIdx(vm *VM, t types.Type, name string) int {
+	st := structOf(t)
+	if st == nil {
+		panic(vm.fail("fieldIdx: %v is not a struct", t))
+	}
+	for i := 0; i < st.NumFields(); i++ {
+		if st.Field(i).Name() == name {
+			return i
+		}
+	}
+	panic(vm.fail("fieldIdx: no field %s in %v", name, t))
+}
+
+func (vm *VM) getF(p PtrV, name string) Value {
+	if p.Obj == nil {
+		vm.goPanicRuntime("nil pointer dereference (" + name + ")")
+	}
+	t := vm.typeAt(p)
+	return vm.load(ptrField(p, fieldIdx(vm, t, name)))
+}
+
+func (vm *VM) setF(p PtrV, name string, v Value) {
+	t := vm.typeAt(p)
+	vm.store(ptrField(p, fieldIdx(vm, t, name)), v)
+}
+
+// typeAt returns the static type of the location p points to.
+func (vm *VM) typeAt(p PtrV) types.Type {
+	t := p.Obj.Typ
+	for _, i := range p.Path {
+		if t == nil {
+			break
+		}
+		switch u := t.Underlying().(type) {
+		case *types.Struct:
+			t = u.Field(i).Type()
+		case *types.Array:
+			t = u.Elem()
+		default:
+			t = nil
+		}
+	}
+	if t == nil {
+		panic(vm.fail("typeAt: untyped object %s", p.Obj.Name))
+	}
+	return t
+}
+
+func (vm *VM) newStruct(t types.Type, name string) PtrV {
+	return PtrV{Obj: vm.newObject(vm.zero(t), t, name)}
+}
+
+// typeByName finds a named type in a (possibly body-less) package.
+func (vm *VM) typeByName(pkg, name string) types.Type {
+	p := vm.ld.Pkgs[pkg]
+	if p == nil {
+		panic(vm.fail("package %s not in the program", pkg))
+	}
+	o := p.Pkg.Scope().Lookup(name)
+	if o == nil {
+		panic(vm.fail("type %s.%s not found", pkg, name))
+	}
+	return o.Type()
+}
+
+// invokeByName calls method `name` on an interface value.
+func (vm *VM) invokeByName(iv IfaceV, name string, args ...Value) Value {
+	if iv.Dyn == nil {
+		vm.goPanicRuntime("nil interface method call " + name)
+	}
+	switch d := iv.Dyn.(type) {
+	case *SynType:
+		in, ok := vm.intr["syn:"+d.Name+"."+name]
+		if !ok {
+			panic(vm.fail("no model for method syn:%s.%s", d.Name, name))
+		}
+		return in(vm, nil, append([]Value{iv.V}, args...))
+	case types.Type:
+		fn := vm.findMethod(d, name)
+		if fn == nil {
+			panic(vm.fail("method %s not found on %v", name, d))
+		}
+		saved := vm.cur
+		r := vm.callFunction(fn, append([]Value{iv.V}, args...), nil)
+		vm.cur = saved
+		return r
+	}
+	return nil
+}
+
+// ---- http.Header over the engine's map representation ----
+
+func canonKey(vm *VM, v Value) string {
+	s := v.(StrV)
+	if s.Sym || s.Opaque() {
+		panic(vm.fail("symbolic header name"))
+	}
+	return http.CanonicalHeaderKey(s.C)
+}
+
+func (vm *VM) hdrGetAll(h MapV, key string) []Value {
+	v, ok := vm.mapLookup(h, mkStr(key))
+	if !ok {
+		return nil
+	}
+	return vm.sliceElems(v.(SliceV))
+}
+
+func (vm *VM) hdrSet(h MapV, key string, vals []Value) {
+	vm.mapStore(h, mkStr(key), vm.sliceFromValues(vals))
+}
+
+func addHTTP(m map[string]Intrinsic) {
+	for _, ty := range []string{"net/http.Header", "net/textproto.MIMEHeader"} {
+		ty := ty
+		m["("+ty+").Get"] = func(vm *VM, fn *ssa.Function, args []Value) Value {
+			vs := vm.hdrGetAll(args[0].(MapV), canonKey(vm, args[1]))
+			if len(vs) == 0 {
+				return StrV{}
+			}
+			return vs[0]
+		}
+		m["("+ty+").Values"] = func(vm *VM, fn *ssa.Function, args []Value) Value {
+			v, ok := vm.mapLookup(args[0].(MapV), mkStr(canonKey(vm, args[1])))
+			if !ok {
+				return SliceV{}
+			}
+			return v
+		}
+		m["("+ty+").Set"] = func(vm *VM, fn *ssa.Function, args []Value) Value {
+			vm.hdrSet(args[0].(MapV), canonKey(vm, args[1]), []Value{args[2]})
+			return nil
+		}
+		m["("+ty+").Add"] = func(vm *VM, fn *ssa.Function, args []Value) Value {
+			h := args[0].(MapV)
+			k := canonKey(vm, args[1])
+			vs := append(append([]Value(nil), vm.hdrGetAll(h, k)...), args[2])
+			vm.hdrSet(h, k, vs)
+			return nil
+		}
+		m["("+ty+").Del"] = func(vm *VM, fn *ssa.Function, args []Value) Value {
+			vm.mapDelete(args[0].(MapV), mkStr(canonKey(vm, args[1])))
+			return nil
+		}
+	}
+	m["(net/http.Header).Clone"] = func(vm *VM, fn *ssa.Function, args []Value) Value {
+		return vm.cloneHeader(args[0].(MapV))
+	}
+	m["net/http.CanonicalHeaderKey"] = func(vm *VM, fn *ssa.Function, args []Value) Value {
+		return mkStr(canonKey(vm, args[0]))
+	}
+	m["net/textproto.CanonicalMIMEHeaderKey"] = m["net/http.CanonicalHeaderKey"]
+
+	// --- requests ---
+	m["(*net/http.Request).Context"] = func(vm *VM, fn *ssa.Function, args []Value) Value {
+		p := args[0].(PtrV)
+		if c := vm.getF(p, "ctx").(IfaceV); c.Dyn != nil {
+			return c
+		}
+		return vm.backgroundCtx()
+	}
+	m["(*net/http.Request).WithContext"] = func(vm *VM, fn *ssa.Function, args []Value) Value {
+		p := args[0].(PtrV)
+		np := PtrV{Obj: vm.newObject(vm.load(p), p.Obj.Typ, "http.Request")}
+		vm.setF(np, "ctx", args[1])
+		return np
+	}
+	m["(*net/http.Request).Clone"] = func(vm *VM, fn *ssa.Function, args []Value) Value {
+		p := args[0].(PtrV)
+		if p.Obj == nil {
+			vm.goPanicRuntime("nil pointer dereference (Request.Clone)")
+		}
+		np := PtrV{Obj: vm.newObject(vm.load(p), p.Obj.Typ, "http.Request(clone)")}
+		vm.setF(np, "ctx", args[1])
+		if h := vm.getF(p, "Header").(MapV); h.Obj != nil {
+			vm.setF(np, "Header", vm.cloneHeader(h))
+		}
+		if u := vm.getF(p, "URL").(PtrV); u.Obj != nil {
+			vm.setF(np, "URL", PtrV{Obj: vm.newObject(vm.load(u), u.Obj.Typ, "url.URL(clone)")})
+		}
+		return np
+	}
+	m["(*net/http.Request).Cookie"] = func(vm *VM, fn *ssa.Function, args []Value) Value {
+		p := args[0].(PtrV)
+		name := constStr(vm, args[1], "Cookie name")
+		ct := vm.typeByName("net/http", "Cookie")
+		for _, line := range vm.hdrGetAll(vm.getF(p, "Header").(MapV), "Cookie") {
+			l := line.(StrV)
+			// model: the harness puts exactly "name=value" in the Cookie header
+			pre := mkStr(name + "=")
+			if l.Opaque() || l.Len() < pre.Len() {
+				continue
+			}
+			if c := strEq(l.Slice(0, pre.Len()), pre); c.isTrue() || (!c.isFalse() && vm.branch(c)) {
+				ck := vm.newStruct(ct, "http.Cookie")
+				vm.setF(ck, "Name", mkStr(name))
+				vm.setF(ck, "Value", l.Slice(pre.Len(), l.Len()))
+				return TupleV{ck, IfaceV{}}
+			}
+		}
+		return TupleV{PtrV{}, vm.globalIface("net/http", "ErrNoCookie")}
+	}
+	m["net/http.Error"] = func(vm *VM, fn *ssa.Function, args []Value) Value {
+		w := args[0].(IfaceV)
+		h := vm.invokeByName(w, "Header").(MapV)
+		vm.mapDelete(h, mkStr("Content-Length"))
+		vm.hdrSet(h, "Content-Type", []Value{mkStr("text/plain; charset=utf-8")})
+		vm.hdrSet(h, "X-Content-Type-Options", []Value{mkStr("nosniff")})
+		vm.invokeByName(w, "WriteHeader", args[2])
+		vm.invokeByName(w, "Write", vm.byteSliceFromStr(strConcat(args[1].(StrV), mkStr("\n"))))
+		return nil
+	}
+	m["net/http.SetCookie"] = func(vm *VM, fn *ssa.Function, args []Value) Value {
+		w := args[0].(IfaceV)
+		ck := args[1].(PtrV)
+		h := vm.invokeByName(w, "Header").(MapV)
+		val := strConcat(strConcat(vm.getF(ck, "Name").(StrV), mkStr("=")), vm.getF(ck, "Value").(StrV))
+		vs := append(append([]Value(nil), vm.hdrGetAll(h, "Set-Cookie")...), val)
+		vm.hdrSet(h, "Set-Cookie", vs)
+		return nil
+	}
+	m["(net/http.HandlerFunc).ServeHTTP"] = func(vm *VM, fn *ssa.Function, args []Value) Value {
+		return vm.callValue(args[0], []Value{args[1], args[2]}, nil)
+	}
+	m["net/http.NewServeMux"] = func(vm *VM, fn *ssa.Function, args []Value) Value {
+		return vm.newStruct(vm.typeByName("net/http", "ServeMux"), "ServeMux")
+	}
+	m["(*net/http.ServeMux).HandleFunc"] = func(vm *VM, fn *ssa.Function, args []Value) Value {
+		vm.P.routes = append(vm.P.routes, route{pattern: args[1].(StrV), handler: args[2]})
+		return nil
+	}
+	m["(*net/http.ServeMux).Handle"] = func(vm *VM, fn *ssa.Function, args []Value) Value {
+		vm.P.routes = append(vm.P.routes, route{pattern: args[1].(StrV), handlerIface: args[2]})
+		return nil
+	}
+	m["vocab.vRouteCount"] = func(vm *VM, fn *ssa.Function, args []Value) Value { return intV(len(vm.P.routes)) }
+	m["vocab.vRoutePattern"] = func(vm *VM, fn *ssa.Function, args []Value) Value {
+		return vm.P.routes[constInt(vm, args[0], "route index")].pattern
+	}
+	m["vocab.vRouteServe"] = func(vm *VM, fn *ssa.Function, args []Value) Value {
+		r := vm.P.routes[constInt(vm, args[0], "route index")]
+		if r.handler != nil {
+			vm.callValue(r.handler, []Value{args[1], args[2]}, nil)
+		} else {
+			vm.invokeByName(r.handlerIface.(IfaceV), "ServeHTTP", args[1], args[2])
+		}
+		return nil
+	}
+	m["vocab.vMarkerCount"] = func(vm *VM, fn *ssa.Function, args []Value) Value {
+		n := 0
+		if v, ok := vm.P.env["marker:"+constStr(vm, args[0], "marker")]; ok {
+			n = int(v.(*Term).Int())
+		}
+		return intV(n)
+	}
+
+	// --- context ---
+	m["context.Background"] = func(vm *VM, fn *ssa.Function, args []Value) Value { return vm.backgroundCtx() }
+	m["context.TODO"] = m["context.Background"]
+	m["syn:context.Done"] = func(vm *VM, fn *ssa.Function, args []Value) Value {
+		return args[0].(*StructV).F[0]
+	}
+	m["syn:context.Err"] = func(vm *VM, fn *ssa.Function, args []Value) Value {
+		ch := args[0].(*StructV).F[0].(ChanV)
+		if ch.Obj != nil && ch.Obj.Val.(*ChanData).Closed {
+			return vm.globalIface("context", "Canceled")
+		}
+		return IfaceV{}
+	}
+	m["syn:context.Value"] = func(vm *VM, fn *ssa.Function, args []Value) Value { return IfaceV{} }
+	m["syn:context.Deadline"] = func(vm *VM, fn *ssa.Function, args []Value) Value {
+		return TupleV{mkTime(mkBV(64, 0)), tFalse}
+	}
+	m["context.WithCancel"] = func(vm *VM, fn *ssa.Function, args []Value) Value {
+		ch := ChanV{Obj: vm.newObject(&ChanData{}, nil, "ctx.done")}
+		ctx := IfaceV{Dyn: vm.synType("context"), V: &StructV{F: []Value{ch}}}
+		cancel := &FuncV{Name: "cancel", Native: func(vm *VM, a []Value) Value {
+			if !ch.Obj.Val.(*ChanData).Closed {
+				vm.chanClose(ch)
+			}
+			return nil
+		}}
+		return TupleV{ctx, cancel}
+	}
+	m["vocab.vCancelledCtx"] = func(vm *VM, fn *ssa.Function, args []Value) Value {
+		ch := ChanV{Obj: vm.newObject(&ChanData{Closed: true}, nil, "ctx.done")}
+		return IfaceV{Dyn: vm.synType("context"), V: &StructV{F: []Value{ch}}}
+	}
+
+	// --- url ---
+	m["net/url.Parse"] = func(vm *VM, fn *ssa.Function, args []Value) Value {
+		raw := args[0].(StrV)
+		ut := vm.typeByName("net/url", "URL")
+		u := vm.newStruct(ut, "url.URL")
+		if !raw.Sym && !raw.Opaque() {
+			pu, err := url.Parse(raw.C)
+			if err != nil {
+				return TupleV{PtrV{}, vm.newErrorStr("parse " + raw.C + ": " + err.Error())}
+			}
+			vm.setF(u, "Scheme", mkStr(pu.Scheme))
+			vm.setF(u, "Host", mkStr(pu.Host))
+			vm.setF(u, "Path", mkStr(pu.Path))
+			vm.setF(u, "RawQuery", mkStr(pu.RawQuery))
+			vm.setF(u, "Fragment", mkStr(pu.Fragment))
+			return TupleV{u, IfaceV{}}
+		}
+		// symbolic text: only "scheme://" ++ host is supported (what addrToUrl builds)
+		for _, sch := range []string{"https://", "http://"} {
+			if raw.Len() >= len(sch) {
+				if c := strEq(raw.Slice(0, len(sch)), mkStr(sch)); c.isTrue() {
+					vm.setF(u, "Scheme", mkStr(strings.TrimSuffix(sch, "://")))
+					vm.setF(u, "Host", raw.Slice(len(sch), raw.Len()))
+					vm.note("url.Parse on a symbolic host: modelled as always succeeding with that host")
+					return TupleV{u, IfaceV{}}
+				}
+			}
+		}
+		panic(vm.fail("url.Parse on symbolic text"))
+	}
+	m["(*net/url.URL).String"] = func(vm *VM, fn *ssa.Function, args []Value) Value {
+		u := args[0].(PtrV)
+		if u.Obj == nil {
+			return mkStr("<nil>")
+		}
+		s := strConcat(vm.getF(u, "Scheme").(StrV), mkStr("://"))
+		s = strConcat(s, vm.getF(u, "Host").(StrV))
+		s = strConcat(s, vm.getF(u, "Path").(StrV))
+		return s
+	}
+
+	// --- origin stub: http.DefaultClient.Do is a harness-provided Go function ---
+	m["vocab.vSetOrigin"] = func(vm *VM, fn *ssa.Function, args []Value) Value {
+		vm.P.env["origin"] = args[0]
+		return nil
+	}
+	m["(*net/http.Client).Do"] = func(vm *VM, fn *ssa.Function, args []Value) Value {
+		o, ok := vm.P.env["origin"]
+		if !ok {
+			panic(vm.fail("http.Client.Do without vSetOrigin"))
+		}
+		vm.lockEventLog("io", nil, true)
+		return vm.callValue(o, []Value{args[1]}, nil)
+	}
+	// (*http.Response).Write(w): capture stub — the harness-registered sink receives it
+	m["vocab.vSetResponseSink"] = func(vm *VM, fn *ssa.Function, args []Value) Value {
+		vm.P.env["respsink"] = args[0]
+		return nil
+	}
+	m["(*net/http.Response).Write"] = func(vm *VM, fn *ssa.Function, args []Value) Value {
+		s, ok := vm.P.env["respsink"]
+		if !ok {
+			panic(vm.fail("http.Response.Write without vSetResponseSink"))
+		}
+		return vm.callValue(s, []Value{args[0]}, nil)
+	}
+	m["(*bufio.Writer).Flush"] = func(vm *VM, fn *ssa.Function, args []Value) Value { return IfaceV{} }
+
+	// --- crypto / db stubs (C20, C11) ---
+	m["crypto/rand.Text"] = func(vm *VM, fn *ssa.Function, args []Value) Value {
+		n := 0
+		if v, ok := vm.P.env["rand.text"]; ok {
+			n = int(v.(*Term).Int())
+		}
+		n++
+		vm.P.env["rand.text"] = intV(n)
+		return mkStr(fmt.Sprintf("TOKEN%021d", n)) // 26 characters like rand.Text
+	}
+	m["crypto/rand.Read"] = func(vm *VM, fn *ssa.Function, args []Value) Value {
+		return TupleV{intV(args[0].(SliceV).Len), IfaceV{}}
+	}
+	m["golang.org/x/crypto/argon2.IDKey"] = func(vm *VM, fn *ssa.Function, args []Value) Value {
+		n := 4
+		e := make([]Value, n)
+		for i := range e {
+			e[i] = vm.freshVar("kdf", bvSort(8))
+		}
+		return vm.sliceFromValues(e)
+	}
+	// the verdict of the constant-time comparison is the (trusted) password check outcome
+	m["crypto/subtle.ConstantTimeCompare"] = func(vm *VM, fn *ssa.Function, args []Value) Value {
+		k := vm.chooseLogged(2)
+		vm.P.env["verdict"] = intV(k)
+		return intV(k)
+	}
+	m["vocab.vLastVerdict"] = func(vm *VM, fn *ssa.Function, args []Value) Value {
+		if v, ok := vm.P.env["verdict"]; ok {
+			return v
+		}
+		return intV(-1)
+	}
+	m["reservoir/db/stores.OpenUserStore"] = func(vm *VM, fn *ssa.Function, args []Value) Value {
+		st := fn.Signature.Results().At(0).Type().(*types.Pointer).Elem()
+		if f, ok := vm.P.env["db.openfails"]; ok && f.(*Term).BoolVal() {
+			return TupleV{PtrV{}, vm.newErrorStr("db open failed")}
+		}
+		return TupleV{vm.newStruct(st, "UserStore"), IfaceV{}}
+	}
+	m["(*reservoir/db/stores.UserStore).Close"] = func(vm *VM, fn *ssa.Function, args []Value) Value { return IfaceV{} }
+	userLookup := func(vm *VM, fn *ssa.Function, args []Value) Value {
+		// nondet: no such user | the harness-registered user row | error
+		u, ok := vm.P.env["db.user"]
+		switch vm.chooseLogged(3) {
+		case 0:
+			return TupleV{PtrV{}, IfaceV{}}
+		case 1:
+			if !ok {
+				return TupleV{PtrV{}, IfaceV{}}
+			}
+			vm.P.env["db.userfound"] = tTrue
+			return TupleV{u, IfaceV{}}
+		}
+		return TupleV{PtrV{}, vm.newErrorStr("db error")}
+	}
+	m["(*reservoir/db/stores.UserStore).GetByUsername"] = userLookup
+	m["(*reservoir/db/stores.UserStore).GetByID"] = userLookup
+	m["(*reservoir/db/stores.UserStore).Save"] = func(vm *VM, fn *ssa.Function, args []Value) Value {
+		vm.bumpMarker("db.save")
+		return IfaceV{}
+	}
+	m["vocab.vSetUserRow"] = func(vm *VM, fn *ssa.Function, args []Value) Value {
+		vm.P.env["db.user"] = args[0].(IfaceV).V
+		return nil
+	}
+	m["vocab.vUserFound"] = func(vm *VM, fn *ssa.Function, args []Value) Value {
+		_, ok := vm.P.env["db.userfound"]
+		return mkBool(ok)
+	}
+	// json decoding of request bodies: nondet error | harness-registered value copied in
+	m["encoding/json.NewDecoder"] = func(vm *VM, fn *ssa.Function, args []Value) Value {
+		return vm.newStruct(vm.typeByName("encoding/json", "Decoder"), "json.Decoder")
+	}
+	m["(*encoding/json.Decoder).Decode"] = func(vm *VM, fn *ssa.Function, args []Value) Value {
+		if vm.chooseLogged(2) == 0 {
+			return vm.newErrorStr("json: decode error")
+		}
+		dst := args[1].(IfaceV)
+		p, ok := dst.V.(PtrV)
+		if !ok || p.Obj == nil {
+			return vm.newErrorStr("json: Unmarshal(non-pointer)")
+		}
+		// fill string fields with harness-chosen symbolic strings
+		cur := vm.load(p)
+		if sv, isS := cur.(*StructV); isS {
+			f := append([]Value(nil), sv.F...)
+			for i := range f {
+				if _, isStr := f[i].(StrV); isStr {
+					n := vm.choose(2) // empty or one symbolic byte: enough to tell "" from non-empty
+					f[i] = strFromBytes(vm.symBytes(n, "string"))
+				}
+			}
+			vm.store(p, &StructV{F: f})
+		}
+		return IfaceV{}
+	}
+	m["(*encoding/json.Decoder).DisallowUnknownFields"] = nop
+	m["encoding/json.Marshal"] = func(vm *VM, fn *ssa.Function, args []Value) Value {
+		// like the real encoder, a value with a MarshalJSON method encodes itself; the value
+		// that finally reaches the encoder is captured for the harness
+		iv := args[0].(IfaceV)
+		if dt, ok := iv.Dyn.(types.Type); ok {
+			if mfn := vm.findMethod(dt, "MarshalJSON"); mfn != nil && mfn.Blocks != nil {
+				saved := vm.cur
+				r := vm.callFunction(mfn, []Value{iv.V}, nil)
+				vm.cur = saved
+				return r
+			}
+		}
+		vm.P.env["json.marshal.last"] = iv
+		return TupleV{vm.byteSliceFromStr(mkStr("{}")), IfaceV{}}
+	}
+	m["encoding/json.NewEncoder"] = func(vm *VM, fn *ssa.Function, args []Value) Value {
+		e := vm.newStruct(vm.typeByName("encoding/json", "Encoder"), "json.Encoder")
+		e.Obj.Ext = args[0]
+		return e
+	}
+	m["(*encoding/json.Encoder).SetIndent"] = nop
+	m["(*encoding/json.Encoder).Encode"] = func(vm *VM, fn *ssa.Function, args []Value) Value {
+		// "write n bytes, may fail at any k <= n": the text is 4 fresh bytes standing for the
+		// encoding of the configuration as it is at this moment (vOnEncode snapshots it)
+		if cb, ok := vm.P.env["onencode"]; ok {
+			vm.callValue(cb, nil, nil)
+		}
+		w := args[0].(PtrV).Obj.Ext.(IfaceV)
+		vm.bumpMarker("json.encode")
+		nenc := int(vm.P.env["marker:json.encode"].(*Term).Int())
+		tok := fmt.Sprintf("E%03d", nenc%1000)
+		b := make([]Value, 4)
+		for i := range b {
+			b[i] = mkBV(8, uint64(tok[i]))
+		}
+		r := vm.invokeByName(w, "Write", vm.sliceFromValues(b)).(TupleV)
+		return r[1]
+	}
+	m["vocab.vOnEncode"] = func(vm *VM, fn *ssa.Function, args []Value) Value {
+		vm.P.env["onencode"] = args[0]
+		return nil
+	}
+	m["reflect.ValueOf"] = func(vm *VM, fn *ssa.Function, args []Value) Value {
+		return vm.zero(fn.Signature.Results().At(0).Type())
+	}
+	// vOverride(name, f): calls of the named /repo function are routed to the harness
+	// function f (used to cut reflect-driven code at a documented stub)
+	m["vocab.vOverride"] = func(vm *VM, fn *ssa.Function, args []Value) Value {
+		vm.P.overrides[constStr(vm, args[0], "vOverride name")] = args[1].(IfaceV).V
+		return nil
+	}
+	m["vocab.vLastMarshalled"] = func(vm *VM, fn *ssa.Function, args []Value) Value {
+		if v, ok := vm.P.env["json.marshal.last"]; ok {
+			return v
+		}
+		return IfaceV{}
+	}
+
+	// --- singleflight (sequential contract): the caller is the leader, nobody joins ---
+	m["(*golang.org/x/sync/singleflight.Group).Do"] = func(vm *VM, fn *ssa.Function, args []Value) Value {
+		key := args[1]
+		vm.P.env["singleflight.lastkey"] = key
+		r := vm.callValue(args[2], nil, nil).(TupleV)
+		shared := tFalse
+		if v, ok := vm.P.env["singleflight.shared"]; ok {
+			shared = v.(*Term)
+		}
+		return TupleV{r[0], r[1], shared}
+	}
+	m["vocab.vSingleflightShared"] = func(vm *VM, fn *ssa.Function, args []Value) Value {
+		vm.P.env["singleflight.shared"] = args[0]
+		return nil
+	}
+	m["vocab.vSingleflightKey"] = func(vm *VM, fn *ssa.Function, args []Value) Value {
+		if v, ok := vm.P.env["singleflight.lastkey"]; ok {
+			return v
+		}
+		return StrV{}
+	}
+}
+
+type route struct {
+	pattern      StrV
+	handler      Value
+	handlerIface Value
+}
+
+func (vm *VM) bumpMarker(name string) {
+	n := 0
+	if v, ok := vm.P.env["marker:"+name]; ok {
+		n = int(v.(*Term).Int())
+	}
+	vm.P.env["marker:"+name] = intV(n + 1)
+}
+
+func (vm *VM) cloneHeader(h MapV) Value {
+	if h.Obj == nil {
+		return MapV{}
+	}
+	nm := vm.newMap()
+	md := h.Obj.Val.(*MapData)
+	ne := make([]MapEntry, len(md.E))
+	for i, e := range md.E {
+		ne[i] = MapEntry{K: e.K, V: vm.sliceFromValues(vm.sliceElems(e.V.(SliceV)))}
+	}
+	nm.Obj.Val = &MapData{E: ne}
+	return nm
+}
+
+func (vm *VM) backgroundCtx() Value {
+	return IfaceV{Dyn: vm.synType("context"), V: &StructV{F: []Value{ChanV{}}}}
+}
+
+// globalIface loads an interface-typed package-level variable (e.g. http.ErrNoCookie).
+func (vm *VM) globalIface(pkg, name string) Value {
+	p := vm.ld.Pkgs[pkg]
+	if p == nil {
+		return vm.sentinel(pkg + "." + name)
+	}
+	g, ok := p.Members[name].(*ssa.Global)
+	if !ok {
+		return vm.sentinel(pkg + "." + name)
+	}
+	return vm.globalObj(g).Val
+}
